@@ -213,6 +213,11 @@ mod membership;
 mod network;
 mod utils;
 
+/// Verification hooks (only with `--cfg d_engine_verif`).
+#[cfg(d_engine_verif)]
+#[doc(hidden)]
+pub mod verif;
+
 // ==================== Test Utilities ====================
 
 /// Standardized test suite for custom [`StateMachine`] implementations.
